@@ -2,6 +2,7 @@
 import re
 from .common import *
 from .sched import *
+from .plans import consts_of_type
 from ..engine import AnalysisError, show, strip, short, walk, last_seg, tree_calls
 
 PROP = "C15"
@@ -154,6 +155,108 @@ def run(ctx, F):
     for c in callers(F, SCHED + "reset_state"):
         ctx.judge(False, "C15.close-at-end", "reset_state <- %s" % short(c.fn.q), expected="no caller inside a GC (could close buckets mid-GC)", found=c.fn.q,
                   where=where(c.fn, c.line), key="C15.close-at-end|reset_state|" + c.fn.q)
+
+    # ---- C15.designated-first: no bucket opens / GC finishes while a worker still holds designated packets
+    dn = live_calls(fm, name="has_designated_work")
+    sch_ = live_calls(fm, name="schedule_sentinels") + live_calls(fm, name="update_buckets")
+    okd = len(dn) == 1 and bool(sch_) and all(guard_find(fm, c.bb, r"has_designated_work", False) for c in sch_)
+    ctx.judge(okd, "C15.designated-first", "pending designated work keeps the GC going", expected="find_more_work_for_workers consults has_designated_work() before opening buckets or reporting 'finished'",
+              found="has_designated_work sites=%d" % len(dn), where=where(fm), key="C15.designated-first|check")
+    falses = [(b, t, g) for b, t, g in ret_table(fm) if const_arg(t) is False]
+    okf = bool(falses) and all(any("has_designated_work" in show(p.tree) and p.val is False for p in g) for b, t, g in falses)
+    ctx.judge(okf, "C15.designated-first", "'no more work' is only reported when no worker holds designated packets", expected="return false dominated by has_designated_work()==false",
+              found=str([[("%s==%s" % (show(p.tree)[:40], p.val)) for p in g] for b, t, g in falses])[:300], where=where(fm), key="C15.designated-first|false")
+
+    # ---- C15.add-to-enabled: packets are never added to a bucket the same plan disabled for this pause
+    sites = stage_sites(F)
+    en = []   # (fn, bb, stage, value) value in True/False/'param'
+    helpers = {}
+    for f in F.fns.values():
+        for cs in live_calls(f, q=WB + "set_enabled"):
+            st = consts_of_type(strip(f.flow.arg_tree(cs, 0)), "WorkBucketStage")
+            v = const_arg(f.flow.arg_tree(cs, 1))
+            vt = strip(f.flow.arg_tree(cs, 1))
+            if not st:
+                continue
+            if v in (True, False):
+                en.append((f, cs.bb, st[0], v))
+            elif vt and vt[0] == "arg":
+                helpers.setdefault(f.q, (vt[1], set()))[1].add(st[0])
+    for hq, (argi, stages) in helpers.items():
+        for cs in callers(F, hq):
+            v = const_arg(cs.fn.flow.arg_tree(cs, argi - 1))
+            if v in (True, False):
+                for s_ in stages:
+                    en.append((cs.fn, cs.bb, s_, v))
+    by_owner = {}
+    for f, bb, s_, v in en:
+        owner = f.meta.get("impl_self")
+        if owner and owner.startswith("plan::") and v is False:
+            if last_seg(f.q) == "new":
+                by_owner.setdefault(owner, {"perm": set(), "pause": set()})["perm"].add(s_)
+            else:
+                by_owner.setdefault(owner, {"perm": set(), "pause": set()})["pause"].add(s_)
+
+    def adds_of(f, depth=0, seen=None):
+        seen = seen if seen is not None else set()
+        if f.q in seen or depth > 3:
+            return {}
+        seen.add(f.q)
+        out = {}
+        for s_ in sites:
+            if s_.fn is f and not s_.stage.startswith("dynamic"):
+                out.setdefault(s_.stage, []).append((s_.cs.bb, s_.cs.line, frozenset(g.key() for g in guards(f, s_.cs.bb))))
+        for cs in live_calls(f):
+            h = F.fns.get(cs.res or cs.q or "")
+            if h is not None and h.kind != "closure" and re.search(r"::schedule_\w+$", h.q):
+                for st_, lst in adds_of(h, depth + 1, seen).items():
+                    out.setdefault(st_, []).append((cs.bb, cs.line, frozenset()))
+        return out
+
+    def enabled_before(f, bb, stage, depth=0):
+        """stage is enabled (true) on every path to block bb of f, looking up through callers inside the plan."""
+        evs = [(b, v) for (g, b, s_, v) in en if g is f and s_ == stage]
+        if any(v is True and f.cfg.dominates(b, bb) and b != bb for b, v in evs) or any(v is True and b == bb for b, v in evs):
+            return True
+        if any(v is False and f.cfg.dominates(b, bb) for b, v in evs):
+            return False
+        if depth >= 3:
+            return False
+        ups = [c for c in callers(F, f.q)]
+        return bool(ups) and all(enabled_before(c.fn, c.bb, stage, depth + 1) for c in ups)
+    checked = 0
+    for owner, d in by_owner.items():
+        fns = [f for f in F.fns.values() if f.meta.get("impl_self") == owner and f.kind != "closure"]
+        for f in fns:
+            direct = {}
+            for s_ in sites:
+                if s_.fn is f and not s_.stage.startswith("dynamic"):
+                    direct.setdefault(s_.stage, []).append(s_)
+            for st_, lst in direct.items():
+                if st_ in d["pause"]:
+                    for s_ in lst:
+                        checked += 1
+                        ctx.judge(enabled_before(f, s_.cs.bb, st_), "C15.add-to-enabled", "%s adds %s to %s which the plan disables in another pause" % (short(f.q), sorted(s_.packets), st_),
+                                  expected="a set_enabled(true) on %s dominates the add (in this function or in every caller inside the plan)" % st_,
+                                  found="no enabling call on the way; packets added to a disabled bucket are never executed", where=where(f, s_.cs.line),
+                                  key="C15.add-to-enabled|%s|%s" % (f.q, st_))
+                if st_ in d["perm"]:
+                    for s_ in lst:
+                        ctx.bad("C15.add-to-enabled", "%s adds to %s which %s::new disables permanently" % (short(f.q), st_, last_seg(owner)), "no packets for permanently disabled stages",
+                                str(sorted(s_.packets)), where(f, s_.cs.line), key="C15.add-to-enabled|perm|%s|%s" % (f.q, st_))
+            # helper schedules reached from this function (e.g. schedule_immix_full_heap_collection -> schedule_common_work)
+            for cs in live_calls(f):
+                h = F.fns.get(cs.res or cs.q or "")
+                if h is None or h.kind == "closure" or not re.search(r"::schedule_\w+$", h.q) or h.meta.get("impl_self") == owner:
+                    continue
+                sub = adds_of(h)
+                for st_ in sub:
+                    if st_ in d["pause"]:
+                        checked += 1
+                        ctx.judge(enabled_before(f, cs.bb, st_), "C15.add-to-enabled", "%s schedules %s (adds to %s)" % (short(f.q), short(h.q), st_),
+                                  expected="set_enabled(true) on %s before delegating" % st_, found="not enabled on this path", where=where(f, cs.line),
+                                  key="C15.add-to-enabled|%s|%s|%s" % (f.q, h.q, st_))
+    ctx.floor("C15.add-to-enabled", checked, 5, "adds to pause-dependent buckets checked")
 
     # ---- C15.run-once
     run = F.fn("scheduler::worker::GCWorker::run")
